@@ -6,11 +6,6 @@ import (
 	verif "github.com/uber/kraken/zzverif"
 )
 
-func vmAssumeNoWrap(capacity uint64) {
-	verif.Assume(capacity <= 1<<62)
-	verif.Note("capacity <= 2^62 and Create sizes in 0..3 (reserved+size cannot wrap); wrap-around is checked by VerifFindingMemCreateSizeWrap")
-}
-
 // vmSmallSize: Create sizes are case-split over 0..3 because Create allocates
 // make([]byte, 0, size) and the engine needs a concrete capacity there; the
 // capacity of the store stays a symbolic uint64.
@@ -21,7 +16,6 @@ func vmSmallSize() uint64 {
 // VerifMemLRUHistory: as C07's VerifDiskLRUHistory, on the memory store.
 func VerifMemLRUHistory() {
 	capacity := verif.Uint64("capacity")
-	vmAssumeNoWrap(capacity)
 	h := vmNew(capacity, 2)
 	h.sizeFn = vmSmallSize
 	steps := verif.Bound("steps", 3, 5)
@@ -37,7 +31,6 @@ func VerifMemLRUHistory() {
 // banned or incomplete blobs.
 func VerifMemEvictionOrder() {
 	capacity := verif.Uint64("capacity")
-	vmAssumeNoWrap(capacity)
 	h := vmNew(capacity, 3)
 	h.sizeFn = func() uint64 { return 1 + uint64(verif.Choice("size", 2)) }
 	h.do(voCreate, 0, storelib.BlobScopeAny)
